@@ -1,6 +1,7 @@
 """Plugin library for the C09 correspondence (passed to ExcelCompiler(plugins=...)).
 
-  FAILAT(id, k, kind, x)  returns x; raises the Python exception class named `kind` on the k-th call (1-based) made
+  FAILAT(id, k, kind, shape, x)  returns x; raises the Python exception class named `kind`, built with the
+                          argument tuple named `shape` (no args, several, non-string, unrenderable, ...), on the k-th call (1-based) made
                           with this id since the last `reset()`; k = 0 raises on every call.  One id per workbook
                           cell, so the count is the number of times that cell's formula has been applied.
 """
@@ -20,9 +21,36 @@ def reset():
     COUNTS.clear()
 
 
-def failat(ident, k, kind, x):
+class BadStr:
+    """an exception argument that cannot be rendered"""
+    def __str__(self):
+        raise TypeError('__str__ of the argument failed')
+    __repr__ = __str__
+
+
+SHAPES = {
+    'msg': lambda i, n: (f'plugin failure id={i} call={n}',),
+    'noargs': lambda i, n: (),
+    'multi': lambda i, n: ('first', 2, None),
+    'none': lambda i, n: (None,),
+    'int': lambda i, n: (42,),
+    'tuple': lambda i, n: ((1, 'two'),),
+    'bytes': lambda i, n: (b'\xff{0}%s',),
+    'badstr': lambda i, n: (BadStr(),),
+    'fmt': lambda i, n: ('{0} {name} %s %(x)d {',),
+}
+
+
+def failat(ident, k, kind, shape, x):
     n = COUNTS.get(ident, 0) + 1
     COUNTS[ident] = n
     if k == 0 or n == k:
-        raise KINDS[kind](f'plugin failure id={ident} call={n}')
+        raise KINDS[kind](*SHAPES[shape](ident, n))
+    return x
+
+
+def failneg(x):
+    """a library function that fails on some arguments only: raises ValueError for a negative number"""
+    if isinstance(x, (int, float)) and x < 0:
+        raise ValueError(f'{x} is negative')
     return x
